@@ -207,6 +207,8 @@ class World:
         self.connloss_left = scn.get('connloss', 0)
         self.connloss_injected = 0
         self.fault_rng = __import__('random').Random(scn.get('connloss_seed', 0))
+        self.pub = None         # the publish of a terminal event in progress (client, request counter, fault ordinal)
+        self.when = 0
         # scheduling policy of this case: uniform / one host runs ahead of the
         # other / the window between a handler's read of a node and its
         # following write is stretched (the handler is rarely picked there)
@@ -439,6 +441,17 @@ class World:
         self.oracle.pre_op(task, client, op, path)
 
     def _on_op(self, client, op, path):
+        pub = self.pub
+        if pub is not None and client is pub['client']:
+            # the n-th ZooKeeper request of a publish fails with a connection loss: it never reaches the server
+            pub['n'] += 1
+            pub['ops'].append(op)
+            if pub['n'] == pub['at']:
+                import kazoo.exceptions
+                pub['hit'] = op
+                err = kazoo.exceptions.ConnectionLoss('injected: %s %s' % (op, path))
+                err.vf_injected = True
+                raise err
         inject = False
         if self.connloss_left > 0 and op == 'delete':
             # (only the clean-up of a container is hit: a registration that fails makes the container abort, which
@@ -659,6 +672,10 @@ class World:
             self._del(c)
         elif kind == 'unschedule':
             self._unschedule(a['host'], c)
+        elif kind == 'publish_terminal':
+            self._publish_terminal(a, c)
+        elif kind == 'reg_runtime':
+            self._reg_runtime(a, c)
         else:
             self._aux(kind, a['host'], c)
 
@@ -762,6 +779,101 @@ class World:
                         dict(host=hostname))
         finally:
             tzk._HOSTNAME = real
+
+    def _publish_terminal(self, a, c):
+        """The event daemon of a host publishes a terminal event of container c (trace.app.zk.publish: the trace
+        event, the /finished record, then _unschedule); one request of the publish may fail with a connection loss.
+        The retries of zkutils.with_retry do not sleep (time boundary)."""
+        import kazoo.retry
+        from treadmill.trace.app import zk as tzk
+        hostname = a['host']
+        inst = c['instance']
+        evzk = self.hosts[hostname].evzk
+        stale = ('/scheduled/' + inst in self.srv.nodes
+                 and '/placement/%s/%s' % (hostname, inst) not in self.srv.nodes)
+        self.count('terminal_events_published')
+        if stale:
+            self.count('stale_terminal_events_published')       # the instance is scheduled, this host does not own its placement
+        self.when += 1
+        real_retry = kazoo.retry.KazooRetry
+
+        class NoSleepRetry(real_retry):
+            def __init__(self, *args, **kwargs):
+                kwargs.setdefault('sleep_func', lambda _secs: None)
+                real_retry.__init__(self, *args, **kwargs)
+
+        real = tzk._HOSTNAME       # pylint: disable=protected-access
+        tzk._HOSTNAME = hostname
+        kazoo.retry.KazooRetry = NoSleepRetry
+        self.pub = pub = {'client': evzk, 'n': 0, 'at': a.get('fault_at'), 'hit': None, 'ops': []}
+        try:
+            tzk.publish(evzk, '%.3f' % (1700000000.0 + self.when), inst, a['event'], a['data'], None)
+        except Exception as err:    # pylint: disable=broad-except
+            if getattr(err, 'vf_injected', False):
+                self.count('publishes_failed_on_injected_connection_loss')
+            else:
+                self.report('exception:%s@publish' % type(err).__name__,
+                            'trace.app.zk.publish on %s raised %s: %s' % (hostname, type(err).__name__, err),
+                            dict(host=hostname))
+        finally:
+            self.pub = None
+            kazoo.retry.KazooRetry = real_retry
+            tzk._HOSTNAME = real
+        if pub['hit'] is not None:
+            kind = 'read' if pub['hit'] in ('exists', 'get', 'get_children') else 'write'
+            self.count('publish_connection_loss_on_%s_request' % kind)
+            if stale:
+                self.count('stale_terminal_events_with_connection_loss_on_%s_request' % kind)
+
+    def _reg_runtime(self, a, c):
+        """A runtime that talks to ZooKeeper itself registers container c on host a['host'] through
+        EndpointPresence.register() under a session of its own.  Its waiting (time.sleep between two attempts) is a
+        point where the runtime session of an earlier container may end.  A refused registration aborts the container
+        (the runtime's session ends); a successful one leaves the session alive until the scheduler ends it."""
+        import random
+        import types
+        from treadmill import exc as tm_exc
+        from treadmill import presence
+        hostname = a['host']
+        xr = random.Random(a['seed'])
+        self.count('runtime_registrations')
+        cl = self.srv.client('runtime-%s-%d' % (hostname, len(self.srv.log)))
+        cl.vf_actor = ('aux', hostname, 'reg_runtime', c['cid'])
+        held = [p for _k, p in c['paths']
+                if p in self.srv.nodes and self.srv.nodes[p].owner and self.srv.sessions.get(self.srv.nodes[p].owner)]
+        if held:
+            self.count('runtime_registration_next_to_live_foreign_owner')
+            if any(_oracle.node_host(p, self.srv.nodes[p].data) == hostname for p in held):
+                # another session of the same server name holds a node of the instance
+                self.count('runtime_registration_next_to_live_session_of_same_server')
+        runtimes = self.runtimes = getattr(self, 'runtimes', [])
+
+        def wait(_secs):
+            self.count('runtime_registration_waits')
+            live = [sid for sid in runtimes if self.srv.sessions.get(sid)]
+            if live and xr.random() < 0.25:
+                self.count('runtime_sessions_ended_while_another_waits')
+                self.srv.expire(xr.choice(live))
+
+        real_time = presence.time
+        presence.time = types.SimpleNamespace(sleep=wait, time=real_time.time)
+        try:
+            presence.EndpointPresence(cl, self._manifest(c), hostname=hostname, appname=c['instance']).register()
+            self.count('runtime_registrations_succeeded')
+            runtimes.append(cl.sid)
+            if xr.random() < 0.3:
+                self.srv.expire(cl.sid)         # a short-lived container
+            else:
+                self.orphans.append(cl.sid)     # ends at a moment the scheduler picks
+        except tm_exc.ContainerSetupError:
+            self.count('runtime_registrations_refused')
+            self.srv.expire(cl.sid)
+        except Exception as err:    # pylint: disable=broad-except
+            self.report('exception:%s@EndpointPresence.register' % type(err).__name__,
+                        'register(hostname=%s) raised %s: %s' % (hostname, type(err).__name__, err),
+                        dict(host=hostname))
+        finally:
+            presence.time = real_time
 
     # -- the run -------------------------------------------------------------------------
     def run(self):
